@@ -20,6 +20,20 @@ open Vita.C17.M
 inductive Who | self | lhs | rhs | a | b | c | ret
   deriving DecidableEq, Repr
 
+/-! ## `vita::range(m, u)` – the helper with which users write intervals -/
+inductive TyRef
+  | tparam (i : Nat)            -- the i-th template parameter (the deduced type of the i-th argument)
+  | other (txt : String)
+  deriving Repr, DecidableEq
+
+/-- the type of each component of the returned pair and the parameter it is built from -/
+structure RangeCode where
+  firstTy : TyRef
+  secondTy : TyRef
+  firstFrom : Nat
+  secondFrom : Nat
+  deriving Repr, DecidableEq
+
 /-! ## ages (individual<Derived>)   variables: 0 = the stored member `age_`, 1 = the parameter / temporary -/
 structure AgeCode where
   field    : Ty          -- declared type of the data member `age_`
